@@ -20,11 +20,17 @@ func (s *Store) maxSizeEnforcer(maxSize int64) {
 			}
 			// Add message to all.
 			m := md.msg
+			if m.removed {
+				// Deleted from its mailbox before it got here; nothing to account for.
+				close(md.done)
+				continue
+			}
 			el := all.PushBack(m)
 			m.el = el
 			curSize += int64(m.Size())
-			for curSize > maxSize {
-				// Remove oldest message.
+			for curSize > maxSize && all.Len() > 0 {
+				// Remove oldest message.  The list may run out first: a message that someone else
+				// is deleting right now stays in curSize until that deletion is reported.
 				el := all.Front()
 				all.Remove(el)
 				m := el.Value.(*Message)
@@ -39,8 +45,11 @@ func (s *Store) maxSizeEnforcer(maxSize int64) {
 			}
 			// Remove message from all.
 			m := md.msg
-			el := all.Remove(m.el)
-			if el != nil {
+			if m.el == nil {
+				// Deleted before its delivery was registered with the enforcer (the message
+				// becomes visible in its mailbox first); make sure it never is.
+				m.removed = true
+			} else if el := all.Remove(m.el); el != nil {
 				curSize -= int64(m.Size())
 			}
 			close(md.done)
